@@ -74,7 +74,7 @@ func NewWorld(r *rand.Rand, n, idx int, app gen.AppKind, assets int) *World {
 
 // NewMachine returns a fresh real machine for the world.
 func (w *World) NewMachine() *channel.StateMachine {
-	m, err := channel.NewStateMachine(gen.AccMap(w.Parties[w.Idx].Acc), *w.Params.Clone())
+	m, err := channel.NewStateMachine(w.Parties[w.Idx].AccMap(), *w.Params.Clone())
 	if err != nil {
 		panic(fmt.Sprintf("mexplore: NewStateMachine: %v", err))
 	}
